@@ -1119,7 +1119,9 @@ class Py2Cpp(ITranspiler):
 			return self.render(node, f'{node.classification}/{spec.name}', vars=func_call_vars)
 		elif spec == FuncCallSpec.Tags.len:
 			var_type = self.to_accessible_name(cast(IReflection, context))
-			return self.render(node, f'{node.classification}/{spec.name}', vars={**func_call_vars, 'var_type': var_type})
+			# len(a + b) -> (a + b).size()
+			receiver = self.proc_operand(node.arguments[0].value, arguments[0], CppPrecedences.Primary, False)
+			return self.render(node, f'{node.classification}/{spec.name}', vars={**func_call_vars, 'arguments': [receiver], 'var_type': var_type})
 		elif spec == FuncCallSpec.Tags.print:
 			# XXX 愚直に対応すると実引数の型推論のコストが高く、その割に出力メッセージの柔軟性が下がりメリットが薄いため、関数名の置き換えのみを行う簡易的な対応とする
 			return self.render(node, f'{node.classification}/{spec.name}', vars=func_call_vars)
@@ -1435,10 +1437,33 @@ class Py2Cpp(ITranspiler):
 			```
 		"""
 		operand_precedence = CppPrecedences.of(operand_node)
+		if operand_precedence == CppPrecedences.Primary and precedence > CppPrecedences.Ternary and self.__has_bare_ternary(operand):
+			# XXX dict.get等、3項演算子として出力される関数呼び出し
+			operand_precedence = CppPrecedences.Ternary
+
 		if operand_precedence < precedence or (is_right and operand_precedence == precedence) or (precedence == CppPrecedences.Unary and isinstance(operand_node, defs.Factor)):
 			return f'({operand})'
 
 		return operand
+
+	def __has_bare_ternary(self, text: str) -> bool:
+		"""Args: text: 出力文字列 Returns: True = 括弧・引用符の外側に3項演算子を含む"""
+		depth = 0
+		quote = ''
+		for index, c in enumerate(text):
+			if quote:
+				if c == quote and text[index - 1] != '\\':
+					quote = ''
+			elif c in '"\'':
+				quote = c
+			elif c in '([{':
+				depth += 1
+			elif c in ')]}':
+				depth -= 1
+			elif c == '?' and depth == 0:
+				return True
+
+		return False
 
 	def on_or_compare(self, node: defs.OrCompare, elements: list[str]) -> str:
 		return self.proc_binary_operation(node, elements)
